@@ -2021,11 +2021,21 @@ Qed.
 (* ------------------------------------------------------------------------------------------ *)
 (* assembled statements                                                                       *)
 (* ------------------------------------------------------------------------------------------ *)
-Lemma reach_all ops : All (run ops init).
-Proof. apply All_run, All_init. Qed.
+(* From here on everything is stated for an arbitrary starting state [s0] that satisfies the invariants, has no
+   writer yet and nothing in flight: the fresh object [init], and the object BlobManager.get_blob creates over a
+   directory that already holds a file ([start], see start_All below). *)
+Variable s0 : state.
+Hypothesis A0 : All s0.
+Hypothesis W0 : s_ws s0 = [].
+Hypothesis Q0 : s_q s0 = [].
+Hypothesis Io0 : s_io s0 = None.
+Hypothesis C0 : s_completed s0 = 0%nat.
+
+Lemma reach_all ops : All (run ops s0).
+Proof. apply All_run, A0. Qed.
 
 Lemma only_matching ops :
-  let s := run ops init in
+  let s := run ops s0 in
   (s_verified s = true ->
      exists b L, s_store s = Some b /\ s_len s = Some L /\ N.of_nat (length b) = L
                  /\ (0 < L <= MAX_BLOB_SIZE)%N /\ H b = h)
@@ -2045,7 +2055,7 @@ Qed.
 (* every writer result is a complete correct copy of an admissible size (its length was the accepted length when
    it completed: writer_write_exact) *)
 Lemma writer_result_good ops i w b :
-  nth_error (s_ws (run ops init)) i = Some w -> w_fut w = FOk b ->
+  nth_error (s_ws (run ops s0)) i = Some w -> w_fut w = FOk b ->
   (0 < N.of_nat (length b) <= MAX_BLOB_SIZE)%N /\ H b = h.
 Proof.
   intros Hn Ef. destruct (reach_all ops) as (I & _).
@@ -2054,8 +2064,8 @@ Qed.
 
 (* an accepted length is at most 2^21 and is changed by nothing but delete() *)
 Lemma length_once_bounded ops1 ops2 L :
-  s_len (run ops1 init) = Some L ->
-  (L <= MAX_BLOB_SIZE)%N /\ (no_delete ops2 -> s_len (run (ops1 ++ ops2) init) = Some L).
+  s_len (run ops1 s0) = Some L ->
+  (L <= MAX_BLOB_SIZE)%N /\ (no_delete ops2 -> s_len (run (ops1 ++ ops2) s0) = Some L).
 Proof.
   intros E. split.
   - destruct (reach_all ops1) as (I & _). destruct I as (I1 & _). auto.
@@ -2064,7 +2074,7 @@ Qed.
 
 (* the state right after a live writer received the bytes completing a correct copy *)
 Lemma winning_write ops i w d L :
-  let s := run ops init in
+  let s := run ops s0 in
   nth_error (s_ws s) i = Some w -> w_open w = true -> w_fut w = FPending -> s_len s = Some L -> (0 < L)%N ->
   N.of_nat (length (w_buf w ++ d)) = L -> H (w_buf w ++ d) = h ->
   let s1 := fst (step (Write i d) s) in
@@ -2094,7 +2104,7 @@ Proof.
 Qed.
 
 Lemma first_copy_wins ops i w d L :
-  let s := run ops init in
+  let s := run ops s0 in
   nth_error (s_ws s) i = Some w -> w_open w = true -> w_fut w = FPending -> s_len s = Some L -> (0 < L)%N ->
   N.of_nat (length (w_buf w ++ d)) = L -> H (w_buf w ++ d) = h ->
   let s1 := fst (step (Write i d) s) in
@@ -2136,15 +2146,16 @@ Proof.
     destruct A4 as (I4 & I24 & _).
     assert (Q4 : s_q s4 = []) by apply drain_quiescent.
     assert (El4 : s_len s4 = Some L).
-    { unfold s4, drain. rewrite iter_len. unfold io_done. destruct (s_io _); simpl; rewrite iter_len; auto. }
+    { change s4 with (run [Drain; IoDone; Drain] s1). apply run_len_kept; auto.
+      repeat constructor; discriminate. }
     assert (W4 : s_writing s4 = false) by (destruct I24 as (_ & X & _); auto).
     repeat split; auto.
-    intros V0 W0.
+    intros V0 Wr0.
     assert (P4 : Psi s4 = Psi s).
     { unfold s4, drain. rewrite Psi_iter by (apply Inv2_io_done, Inv2_iter; auto).
       rewrite Psi_io_done. rewrite Psi_iter by auto. apply (Psi_step (Write i d)); simpl; auto. }
     destruct I24 as (E1 & _). destruct J0 as (F1' & _).
-    unfold Psi, owed, io01 in *. rewrite Q4, V, W4 in *. rewrite V0, W0 in *.
+    unfold Psi, owed, io01 in *. rewrite Q4, V, W4 in *. rewrite V0, Wr0 in *.
     change (cnt is_cp []) with 0%nat in P4. change (tok_q []) with 0%nat in P4. change (stage_q []) with 0%nat in E1.
     simpl in *. destruct (s_io s4); [simpl in E1; lia|].
     assert (T0 : tok_q (s_q s) = 0%nat).
@@ -2154,7 +2165,7 @@ Qed.
 
 (* the winner also shuts every other writer down *)
 Lemma first_copy_closes_others ops i w d L :
-  let s := run ops init in
+  let s := run ops s0 in
   nth_error (s_ws s) i = Some w -> w_open w = true -> w_fut w = FPending -> s_len s = Some L -> (0 < L)%N ->
   N.of_nat (length (w_buf w ++ d)) = L -> H (w_buf w ++ d) = h ->
   let s1 := fst (step (Write i d) s) in
@@ -2167,7 +2178,7 @@ Proof.
   intros s Hn O P El Lp Ln Hh s1 s2 s4.
   destruct (winning_write ops i w d L Hn O P El Lp Ln Hh) as (_ & (w1 & N1 & F1 & _) & Q1).
   fold s in N1, Q1. fold s1 in N1, Q1.
-  assert (R1 : s1 = run (ops ++ [Write i d]) init) by (rewrite run_app; reflexivity).
+  assert (R1 : s1 = run (ops ++ [Write i d]) s0) by (rewrite run_app; reflexivity).
   assert (A1 : All s1) by (apply (All_step (Write i d)); apply reach_all).
   destruct A1 as (_ & _ & _ & Rg1 & C1).
   assert (Pw1 : PW s1) by (right; exists i, w1, (w_buf w ++ d); auto).
@@ -2177,7 +2188,8 @@ Proof.
   assert (Q2 : s_q s2 = []) by apply drain_quiescent.
   assert (Np4 : NP s4).
   { unfold s4. simpl. eapply NP_mono; [apply wmono_iter|apply iter_nws|].
-    eapply NP_ws; [|exact Np2]. unfold io_done. destruct (s_io _); auto. }
+    eapply NP_ws; [|exact Np2]. unfold io_done.
+    match goal with |- context [match s_io ?x with _ => _ end] => destruct (s_io x) end; auto. }
   assert (C4 : Cl s4) by (unfold s4; simpl; apply Cl_iter; apply (Cl_step IoDone); apply Cl_iter; auto).
   assert (Q4 : s_q s4 = []) by apply drain_quiescent.
   split; [|split].
@@ -2185,15 +2197,18 @@ Proof.
   - intros j wj Hj. destruct (all_closed s4 C4 Np4 Q4 j wj Hj) as (A & B). split; auto. apply fut_done_true; auto.
   - unfold s4. simpl. change (C01.drain kd cb ?x) with (drain kd cb x). unfold drain. rewrite iter_nws.
     replace (length (s_ws (io_done (iter kd cb (fuel s1) s1)))) with (length (s_ws (iter kd cb (fuel s1) s1)))
-      by (unfold io_done; destruct (s_io _); auto).
+      by (unfold io_done; match goal with |- context [match s_io ?x with _ => _ end] => destruct (s_io x) end; auto).
     rewrite iter_nws. unfold s1. simpl. unfold write. rewrite Hn. simpl. apply app_w_nws.
 Qed.
 
 (* the completion callback never fires twice unless the object was reset (read out / deleted) in between *)
-Lemma completed_at_most_once ops : core_ops ops -> (s_completed (run ops init) <= 1)%nat.
+Lemma completed_at_most_once ops : core_ops ops -> (s_completed (run ops s0) <= 1)%nat.
 Proof.
-  intros Co. pose proof (Psi_run ops init Co Inv2_init) as P. unfold Psi in P at 2. simpl in P.
-  unfold Psi in P. unfold owed at 2 in P. simpl in P. destruct cb; simpl in P; lia.
+  intros Co. assert (J0 : Inv2 s0) by (destruct A0 as (_ & J & _); exact J).
+  pose proof (Psi_run ops s0 Co J0) as P. unfold Psi in P. rewrite Q0, C0 in P. unfold io01 in P. rewrite Io0 in P.
+  change (cnt is_cp []) with 0%nat in P. change (tok_q []) with 0%nat in P.
+  assert (owed s0 <= 1)%nat by (unfold owed; destruct (negb (s_verified s0) && negb (s_writing s0)); simpl; lia).
+  destruct cb; simpl in P; lia.
 Qed.
 
 (* ------------------------------------------------------------------------------------------ *)
@@ -2407,18 +2422,18 @@ Qed.
 (* every writer, after any history (resets included): what it hashed is the concatenation of the chunks whose
    write() call got past the guards, and the state of its future is determined by those bytes *)
 Lemma writer_history ops i w :
-  nth_error (s_ws (run ops init)) i = Some w ->
-  let t := written i ops (results ops init) in
+  nth_error (s_ws (run ops s0)) i = Some w ->
+  let t := written i ops (results ops s0) in
   w_seen w = t
   /\ (forall b, w_fut w = FOk b -> b = t /\ H t = h /\ (0 < N.of_nat (length t) <= MAX_BLOB_SIZE)%N)
   /\ (w_fut w = FErrHash -> H t <> h)
-  /\ (w_fut w = FPending -> forall L, s_len (run ops init) = Some L -> L <> 0%N -> (N.of_nat (length t) < L)%N).
+  /\ (w_fut w = FPending -> forall L, s_len (run ops s0) = Some L -> L <> 0%N -> (N.of_nat (length t) < L)%N).
 Proof.
   intros Hn t.
   destruct (reach_all ops) as (I & _).
-  assert (Hs : Hist (run ops init)) by (apply Hist_run; [apply All_init|constructor]).
+  assert (Hs : Hist (run ops s0)) by (apply Hist_run; [apply A0|unfold Hist; rewrite W0; constructor]).
   assert (St : w_seen w = t).
-  { pose proof (seen_trace ops init i All_init) as X. unfold seen0 in X. rewrite Hn in X. simpl in X.
+  { pose proof (seen_trace ops s0 i A0) as X. unfold seen0 in X. rewrite Hn, W0 in X.
     destruct i; simpl in X; exact X. }
   destruct I as (_ & I2 & _). destruct (Forall_nth _ _ _ _ I2 Hn) as (A & B & C & _).
   destruct (Forall_nth _ _ _ _ Hs Hn) as (G1 & G2 & G3).
@@ -2644,7 +2659,7 @@ End Exact.
 (* "exactly those bytes": if nothing is being saved and no other writer's result is waiting in the queue when a
    live writer completes a correct copy t, then nothing but t is ever stored afterwards (until the object is reset) *)
 Lemma first_copy_exact ops i w d L :
-  let s := run ops init in
+  let s := run ops s0 in
   nth_error (s_ws s) i = Some w -> w_open w = true -> w_fut w = FPending -> s_len s = Some L -> (0 < L)%N ->
   N.of_nat (length (w_buf w ++ d)) = L -> H (w_buf w ++ d) = h ->
   s_verified s = false -> s_writing s = false ->
@@ -2685,6 +2700,173 @@ Proof.
 Qed.
 
 End C01.
+
+(* ------------------------------------------------------------------------------------------ *)
+(* the starting states: a fresh object, or BlobManager.get_blob(hash, expected) over a blob    *)
+(* directory that may already hold a file (restart)                                           *)
+(* ------------------------------------------------------------------------------------------ *)
+(* the file, if there is one, is taken over by the constructor *)
+Definition taken_over (f : bytes) (expected : option N) : Prop :=
+  match expected with Some L => L = 0%N \/ L = N.of_nat (length f) | None => True end.
+
+(* what the theorems assume about the start: the expected length, if given, is at most 2^21 (it is taken as it is
+   by the constructor), and a pre-existing file THAT IS TAKEN OVER is an intact copy.  A file whose size differs
+   from the (non-zero) expected length needs no assumption at all: it is deleted. *)
+Definition start_ok (H : bytes -> bytes) (h : bytes) (kd : kind) (file : option bytes) (expected : option N) : Prop :=
+  (forall L, expected = Some L -> (L <= MAX_BLOB_SIZE)%N)
+  /\ (forall f, kd = KFile -> file = Some f -> taken_over f expected -> good H h f).
+
+Lemma start_cases kd file expected :
+  start kd file expected = init
+  \/ start kd file expected = mkS expected [] [] [] false false None None O
+  \/ (exists f, kd = KFile /\ file = Some f /\ taken_over f expected
+                /\ start kd file expected = mkS (Some (N.of_nat (length f))) [] [] [] false true None (Some f) O).
+Proof.
+  unfold start. destruct kd; auto. destruct file as [f|]; auto.
+  destruct expected as [L|]; simpl.
+  - destruct (N.eqb_spec L 0); simpl.
+    + right; right. exists f. repeat split; auto.
+    + destruct (N.eqb_spec L (N.of_nat (length f))); simpl; auto.
+      right; right. exists f. repeat split; auto.
+  - right; right. exists f. repeat split; auto.
+Qed.
+
+Lemma All_bare H h expected : (forall L, expected = Some L -> (L <= MAX_BLOB_SIZE)%N) ->
+  All H h (mkS expected [] [] [] false false None None O).
+Proof.
+  intros HL. unfold All, Inv, Inv2, Qok, Reg, Cl; simpl. repeat split; auto; try discriminate; try tauto.
+  - constructor.
+  - intros [|i] w; discriminate.
+  - intros [|i] w; discriminate.
+Qed.
+
+Lemma start_All H h kd file expected : start_ok H h kd file expected -> All H h (start kd file expected).
+Proof.
+  intros (HL & HF). destruct (start_cases kd file expected) as [E|[E|(f & Ek & Ef & Ta & E)]]; rewrite E.
+  - apply All_init.
+  - apply All_bare; auto.
+  - destruct (HF f Ek Ef Ta) as ((G1 & G2) & G3).
+    unfold All, Inv, Inv2, Qok, Reg, Cl, goodS, good; simpl. repeat split; auto; try discriminate; try tauto.
+    + intros L E1. inversion E1; subst. auto.
+    + intros b E1. inversion E1; subst. eexists; repeat split; eauto.
+    + constructor.
+    + intros [|i] w; discriminate.
+    + intros [|i] w; discriminate.
+Qed.
+
+Lemma start_ws kd file expected : s_ws (start kd file expected) = [].
+Proof. destruct (start_cases kd file expected) as [E|[E|(f & _ & _ & _ & E)]]; rewrite E; reflexivity. Qed.
+Lemma start_q kd file expected : s_q (start kd file expected) = [].
+Proof. destruct (start_cases kd file expected) as [E|[E|(f & _ & _ & _ & E)]]; rewrite E; reflexivity. Qed.
+Lemma start_io kd file expected : s_io (start kd file expected) = None.
+Proof. destruct (start_cases kd file expected) as [E|[E|(f & _ & _ & _ & E)]]; rewrite E; reflexivity. Qed.
+Lemma start_completed kd file expected : s_completed (start kd file expected) = 0%nat.
+Proof. destruct (start_cases kd file expected) as [E|[E|(f & _ & _ & _ & E)]]; rewrite E; reflexivity. Qed.
+
+(* the constructor itself: what BlobManager.get_blob(hash, expected) hands back over an existing file *)
+Lemma start_existing_file f expected :
+  let s := start KFile (Some f) expected in
+  (taken_over f expected ->
+     s_verified s = true /\ s_store s = Some f /\ s_len s = Some (N.of_nat (length f)))
+  /\ (~ taken_over f expected -> s_verified s = false /\ s_store s = None /\ s_len s = None)
+  /\ (forall L, expected = Some L -> L <> 0%N -> s_verified s = true -> s_len s = Some L /\ N.of_nat (length f) = L).
+Proof.
+  unfold start, taken_over. destruct expected as [E|]; simpl.
+  - destruct (N.eqb_spec E 0); simpl.
+    + split; [|split]; auto; try tauto. intros L X Hne. inversion X; subst. contradiction.
+    + destruct (N.eqb_spec E (N.of_nat (length f))); simpl.
+      * split; [|split]; auto; try tauto. intros L X _ _. inversion X; subst; auto.
+      * split; [|split]; auto; try tauto; try (intros [X|X]; contradiction); intros; discriminate.
+  - split; [|split]; auto; try tauto; intros; discriminate.
+Qed.
+
+Ltac from_start Ok :=
+  first [ apply start_All; exact Ok | apply start_ws | apply start_q | apply start_io | apply start_completed ].
+
+Section FromStart.
+Variable H : bytes -> bytes.
+Variable h : bytes.
+Variable kd : kind.
+Variable cb : bool.
+Variable file : option bytes.
+Variable expected : option N.
+Hypothesis Ok : start_ok H h kd file expected.
+Notation s0 := (start kd file expected).
+
+Lemma only_matching_start ops :
+  let s := run H h kd cb ops s0 in
+  (s_verified s = true ->
+     exists b L, s_store s = Some b /\ s_len s = Some L /\ N.of_nat (length b) = L
+                 /\ (0 < L <= MAX_BLOB_SIZE)%N /\ H b = h)
+  /\ (forall b, s_store s = Some b ->
+     exists L, s_len s = Some L /\ N.of_nat (length b) = L /\ (0 < L <= MAX_BLOB_SIZE)%N /\ H b = h).
+Proof. apply only_matching; from_start Ok. Qed.
+
+Lemma writer_result_good_start ops i w b :
+  nth_error (s_ws (run H h kd cb ops s0)) i = Some w -> w_fut w = FOk b ->
+  (0 < N.of_nat (length b) <= MAX_BLOB_SIZE)%N /\ H b = h.
+Proof. apply writer_result_good; from_start Ok. Qed.
+
+Lemma length_once_bounded_start ops1 ops2 L :
+  s_len (run H h kd cb ops1 s0) = Some L ->
+  (L <= MAX_BLOB_SIZE)%N /\ (no_delete ops2 -> s_len (run H h kd cb (ops1 ++ ops2) s0) = Some L).
+Proof. apply length_once_bounded; from_start Ok. Qed.
+
+Lemma writer_history_start ops i w :
+  nth_error (s_ws (run H h kd cb ops s0)) i = Some w ->
+  let t := written i ops (results H h kd cb ops s0) in
+  w_seen w = t
+  /\ (forall b, w_fut w = FOk b -> b = t /\ H t = h /\ (0 < N.of_nat (length t) <= MAX_BLOB_SIZE)%N)
+  /\ (w_fut w = FErrHash -> H t <> h)
+  /\ (w_fut w = FPending -> forall L, s_len (run H h kd cb ops s0) = Some L -> L <> 0%N -> (N.of_nat (length t) < L)%N).
+Proof. apply writer_history; from_start Ok. Qed.
+
+Lemma first_copy_wins_start ops i w d L :
+  let s := run H h kd cb ops s0 in
+  nth_error (s_ws s) i = Some w -> w_open w = true -> w_fut w = FPending -> s_len s = Some L -> (0 < L)%N ->
+  N.of_nat (length (w_buf w ++ d)) = L -> H (w_buf w ++ d) = h ->
+  let s1 := fst (step H h kd cb (Write i d) s) in
+  (forall ops', core_ops ops' -> let s' := run H h kd cb ops' s1 in s_q s' = [] -> s_io s' = None ->
+     s_verified s' = true /\ exists b, s_store s' = Some b /\ H b = h /\ N.of_nat (length b) = L)
+  /\ (let s4 := run H h kd cb [Drain; IoDone; Drain] s1 in
+      s_q s4 = [] /\ s_verified s4 = true /\ s_writing s4 = false
+      /\ (exists b, s_store s4 = Some b /\ H b = h /\ N.of_nat (length b) = L)
+      /\ (s_verified s = false -> s_writing s = false ->
+          s_completed s4 = (s_completed s + cnt is_cp (s_q s) + if cb then 1 else 0)%nat)).
+Proof. apply first_copy_wins; from_start Ok. Qed.
+
+Lemma first_copy_exact_start ops i w d L :
+  let s := run H h kd cb ops s0 in
+  nth_error (s_ws s) i = Some w -> w_open w = true -> w_fut w = FPending -> s_len s = Some L -> (0 < L)%N ->
+  N.of_nat (length (w_buf w ++ d)) = L -> H (w_buf w ++ d) = h ->
+  s_verified s = false -> s_writing s = false ->
+  (forall j, In (QWfc j) (s_q s) -> loser s j) ->
+  let s1 := fst (step H h kd cb (Write i d) s) in
+  forall ops' x, core_ops ops' -> s_store (run H h kd cb ops' s1) = Some x -> x = w_buf w ++ d.
+Proof. apply first_copy_exact; from_start Ok. Qed.
+
+Lemma first_copy_closes_others_start ops i w d L :
+  let s := run H h kd cb ops s0 in
+  nth_error (s_ws s) i = Some w -> w_open w = true -> w_fut w = FPending -> s_len s = Some L -> (0 < L)%N ->
+  N.of_nat (length (w_buf w ++ d)) = L -> H (w_buf w ++ d) = h ->
+  let s1 := fst (step H h kd cb (Write i d) s) in
+  let s2 := run H h kd cb [Drain] s1 in
+  let s4 := run H h kd cb [Drain; IoDone; Drain] s1 in
+  (forall j wj, nth_error (s_ws s2) j = Some wj -> w_open wj = false /\ w_fut wj <> FPending)
+  /\ (forall j wj, nth_error (s_ws s4) j = Some wj -> w_open wj = false /\ w_fut wj <> FPending)
+  /\ length (s_ws s4) = length (s_ws s).
+Proof. apply first_copy_closes_others; from_start Ok. Qed.
+
+Lemma completed_at_most_once_start ops : core_ops ops -> (s_completed (run H h kd cb ops s0) <= 1)%nat.
+Proof. apply completed_at_most_once; from_start Ok. Qed.
+
+End FromStart.
+
+(* the fresh object is the start without file and without expected length *)
+Lemma start_ok_fresh H h kd : start_ok H h kd None None.
+Proof. split; intros; discriminate. Qed.
+Lemma start_fresh kd : start kd None None = init.
+Proof. destruct kd; reflexivity. Qed.
 
 (* ------------------------------------------------------------------------------------------ *)
 (* concrete histories used as non-vacuity examples in Props/C01.v (toy hash H b = b)          *)
